@@ -5,6 +5,12 @@
 (*   Sym(op,k,p,R,resp,resR)   image of a permutation / mesh pattern       *)
 (*   Equiv(op,k,p,R,q,before,after)  containment before and after applying *)
 (*                                   the same symmetry to both sides       *)
+(*   Orbit(p,R,res)            all_syms() of a permutation / mesh pattern  *)
+(*   SetImage(name,k,S,res)    a *_set helper applied to a collection      *)
+(*   SetOrbit(S,strict,res)    all_symmetry_sets(S); strict: each member   *)
+(*                             must also be the sorted tuple of its set    *)
+(*   LexMin(S,res)             lex_min(S)                                  *)
+(* S is the collection as it was handed over (any container, any order).   *)
 (***************************************************************************)
 EXTENDS C04_Symmetry, IOUtils
 
@@ -25,6 +31,24 @@ TEquiv == /\ Ev.op = "Equiv"
           /\ UNCHANGED vars
           /\ LET c == MContains(Ev.q, MMesh(Ev.p, ToSetOf(Ev.R))) IN
              bad' = IF Ev.before = c /\ Ev.after = c THEN bad ELSE Flag("ContainmentEquivariant")
-TNext == l <= Len(Trace) /\ l' = l + 1 /\ (TSym \/ TEquiv)
+AsM(m) == MMesh(m.p, ToSetOf(m.R))
+TOrbit == /\ Ev.op = "Orbit"
+          /\ UNCHANGED vars
+          /\ bad' = IF /\ {AsM(Ev.res[i]) : i \in DOMAIN Ev.res} = DOrbitMesh(MMesh(Ev.p, ToSetOf(Ev.R)))
+                       /\ \A i, j \in DOMAIN Ev.res : i # j => AsM(Ev.res[i]) # AsM(Ev.res[j])
+                    THEN bad ELSE Flag("AllSymsIsOrbit")
+TSetImage == /\ Ev.op = "SetImage"
+             /\ UNCHANGED vars
+             /\ bad' = IF ToSetOf(Ev.res) = DSymSet(SymOf(Ev.name, Ev.k), ToSetOf(Ev.S)) THEN bad ELSE Flag("ImageIsPlaneMap")
+TSetOrbit == /\ Ev.op = "SetOrbit"
+             /\ UNCHANGED vars
+             /\ bad' = IF /\ {ToSetOf(Ev.res[i]) : i \in DOMAIN Ev.res} = DOrbitSet(ToSetOf(Ev.S))
+                          /\ Ev.strict => (\A a \in DOMAIN Ev.res : Ev.res[a] = DSortedTuple(ToSetOf(Ev.res[a])))
+                          /\ Ev.strict => (\A a, b \in DOMAIN Ev.res : a # b => Ev.res[a] # Ev.res[b])
+                       THEN bad ELSE Flag("AllSymmetrySetsIsOrbit")
+TLexMin == /\ Ev.op = "LexMin"
+           /\ UNCHANGED vars
+           /\ bad' = IF Ev.res = DLexMin(ToSetOf(Ev.S)) THEN bad ELSE Flag("LexMinIsOrbitMinimum")
+TNext == l <= Len(Trace) /\ l' = l + 1 /\ (TSym \/ TEquiv \/ TOrbit \/ TSetImage \/ TSetOrbit \/ TLexMin)
 TraceDone == l = Len(Trace) + 1 => PrintT(ToJson([verdict |-> bad, drift |-> <<>>, n |-> Len(Trace)]))
 =============================================================================
